@@ -347,7 +347,7 @@ func searchSpecial(k *core.Case, m *abs.Msg, raw libsa.Raw, init bool, cond int)
 	tries := 3000
 	if cond == 6 {
 		tries = 120000
-		if !k.Thorough() && k.Index%4 != 0 {
+		if k.Index%4 != 0 {
 			tries = 3000
 		}
 	}
